@@ -11,27 +11,31 @@ use std::collections::HashMap;
 pub struct TrainSpec {
     pub n_loaded: u32,
     pub n_empty: u32,
-    /// give the empty cars a non-zero Davis-B coefficient (the shipped vehicles have 0)
+    /// make the two car types differ in every per-car attribute that is aggregated over the train: the empty cars get
+    /// a non-zero Davis-B coefficient (the shipped vehicles have 0), 6 axles instead of 4, another bearing resistance
+    /// and rotating mass per axle, another rolling ratio, length and brake count
     pub davis: bool,
     pub mass_override: Option<f64>,
     pub length_override: Option<f64>,
-    /// 0: 1 conv, 1: 1 BEL, 2: conv+BEL, 3: shipped 5-unit default, 4: three mixed units (Proportional)
+    /// 0: 1 conv, 1: 1 BEL, 2: conv+BEL, 3: shipped 5-unit default, 4: three mixed units (Proportional),
+    /// 5: hybrid + conv (RESGreedy), 6: hybrid + BEL + conv (Proportional)
     pub consist: u8,
 }
 
 pub fn manifest(loaded: bool, davis: bool) -> RailVehicle {
+    let odd = davis && !loaded;
     RailVehicle {
         car_type: if loaded { "Manifest_Loaded".into() } else { "Manifest_Empty".into() },
-        length: 18.0 * uc::M,
-        axle_count: 4,
-        brake_count: 1,
+        length: if odd { 22.0 } else { 18.0 } * uc::M,
+        axle_count: if odd { 6 } else { 4 },
+        brake_count: if odd { 2 } else { 1 },
         mass_static_base: 28500.0 * uc::KG,
         mass_freight: if loaded { 101500.0 } else { 0.0 } * uc::KG,
         speed_max: 20.0 * uc::MPS,
         braking_ratio: if loaded { 0.11 } else { 0.25 } * uc::R,
-        mass_rot_per_axle: 750.0 * uc::KG,
-        bearing_res_per_axle: 40.26 * uc::N,
-        rolling_ratio: 0.001546 * uc::R,
+        mass_rot_per_axle: if odd { 600.0 } else { 750.0 } * uc::KG,
+        bearing_res_per_axle: if odd { 55.4 } else { 40.26 } * uc::N,
+        rolling_ratio: if odd { 0.0019 } else { 0.001546 } * uc::R,
         davis_b: if davis && !loaded { 3.4e-5 } else { 0.0 } * uc::SPM,
         cd_area: if loaded { 4.087 } else { 1.231 } * uc::M2,
         curve_coeff_0: 0.056 * uc::R,
@@ -66,6 +70,14 @@ pub fn train_config(s: &TrainSpec) -> TrainConfig {
 pub fn consist(kind: u8, save_interval: Option<usize>) -> Consist {
     let conv = || Locomotive::default();
     let bel = || Locomotive::default_battery_electric_loco();
+    // hybrid with a half-full battery (the shipped default cannot absorb any regeneration at its initial SOC)
+    let hyb = || {
+        let mut h = Locomotive::default_hybrid_electric_loco();
+        if let Some(r) = h.reversible_energy_storage_mut() {
+            r.state.soc = 0.5 * uc::R;
+        }
+        h
+    };
     match kind {
         0 => Consist::new(vec![conv()], save_interval, PowerDistributionControlType::RESGreedy(RESGreedy)),
         1 => Consist::new(vec![bel()], save_interval, PowerDistributionControlType::RESGreedy(RESGreedy)),
@@ -75,6 +87,8 @@ pub fn consist(kind: u8, save_interval: Option<usize>) -> Consist {
             c.set_save_interval(save_interval);
             c
         }
+        5 => Consist::new(vec![hyb(), conv()], save_interval, PowerDistributionControlType::RESGreedy(RESGreedy)),
+        6 => Consist::new(vec![hyb(), bel(), conv()], save_interval, PowerDistributionControlType::Proportional(Proportional)),
         _ => {
             let mut b = bel();
             if let Some(r) = b.reversible_energy_storage_mut() {
